@@ -22,9 +22,11 @@ package interp
 
 import (
 	"fmt"
-	"os"
 	"go/token"
+	"os"
 	"strings"
+
+	"golang.org/x/tools/go/ssa"
 )
 
 type vclock []int32
@@ -217,5 +219,116 @@ func (e *Explorer) mapAccess(m *hashmap, write bool) {
 		}
 	}
 	me.at = e.where()
+	*list = append(*list, me)
+}
+
+// isTarget: fn belongs to the code under test (metacontroller's own packages,
+// neither the harness/model packages nor a zz_verif overlay file).
+func (e *Explorer) isTarget(fn *ssa.Function) bool {
+	if v, ok := e.targetFn[fn]; ok {
+		return v
+	}
+	if e.targetFn == nil {
+		e.targetFn = map[*ssa.Function]bool{}
+	}
+	r := false
+	root := fn
+	for root.Parent() != nil {
+		root = root.Parent()
+	}
+	if root.Pkg != nil {
+		path := root.Pkg.Pkg.Path()
+		if strings.HasPrefix(path, "metacontroller/pkg/") && !strings.Contains(path, "/zzverif") && !strings.Contains(path, "/client/generated") {
+			r = true
+			if fn.Pos() != token.NoPos {
+				file := e.cfg.Prog.Fset.Position(fn.Pos()).Filename
+				if i := strings.LastIndex(file, "/"); i >= 0 {
+					file = file[i+1:]
+				}
+				if strings.HasPrefix(file, "zz_verif") || strings.HasPrefix(file, "zz_") {
+					r = false
+				}
+			}
+		}
+	}
+	e.targetFn[fn] = r
+	return r
+}
+
+// cellState: Eraser-style ownership on top of the epochs. A cell is exempt
+// while only ONE goroutine has touched it (initialisation before publication);
+// from the first access by a second goroutine on, accesses are recorded.
+type cellState struct {
+	mapRace
+	owner  int
+	shared bool
+}
+
+// cellAccess: a load or store of one memory cell (struct field, variable,
+// element) by the code under test while goroutines exist - opt-in per harness
+// (cell_races). Same hybrid rule as for maps (unordered by go / WaitGroup /
+// channel / atomic edges AND no common mutex, one side exclusive), so that the
+// verdict does not depend on the one schedule explored; what one goroutine did
+// to a cell before any other goroutine touched it is exempt (objects are
+// routinely initialised without a lock and then published under one). The
+// native replay under `go test -race` has to confirm a finding.
+func (e *Explorer) cellAccess(fr *frame, p *value, write bool) {
+	t := e.cur
+	if t == nil || p == nil || !e.isTarget(fr.fn) {
+		return
+	}
+	if os.Getenv("VCHECK_RACE_DEBUG") != "" {
+		fmt.Fprintf(os.Stderr, "cellAccess %p write=%v tid=%d vc=%v held=%d at %s\n", p, write, t.id, t.vc, len(t.held), e.where())
+	}
+	rs := e.cellRace[p]
+	if rs == nil {
+		e.cellRace[p] = &cellState{owner: t.id}
+		return
+	}
+	if !rs.shared {
+		if rs.owner == t.id {
+			return
+		}
+		rs.shared = true
+	}
+	conflict := func(ep epoch) bool {
+		return ep.tid != t.id && ep.clk > t.vc.get(ep.tid) && !excluded(ep.locks, t.held)
+	}
+	report := func(prev epoch, prevKind string) {
+		kind := "read"
+		if write {
+			kind = "write"
+		}
+		label := "data-race/memory/" + e.whereFn()
+		if e.raceSeen[label] {
+			return
+		}
+		e.raceSeen[label] = true
+		e.recordViolation("race", label, fmt.Sprintf("%s of a memory cell by goroutine %d at %s and the %s by goroutine %d at %s are neither ordered (go / WaitGroup / channel / atomic edges) nor protected by a common mutex held exclusively by one of them",
+			kind, t.id, e.where(), prevKind, prev.tid, prev.at))
+	}
+	for _, ep := range rs.w {
+		if conflict(ep) {
+			report(ep, "write")
+		}
+	}
+	if write {
+		for _, ep := range rs.r {
+			if conflict(ep) {
+				report(ep, "read")
+			}
+		}
+	}
+	me := epoch{tid: t.id, clk: t.vc.get(t.id), locks: append([]heldLock(nil), t.held...), at: e.where()}
+	list := &rs.r
+	if write {
+		list = &rs.w
+	}
+	for i := range *list {
+		if (*list)[i].tid == t.id {
+			(*list)[i] = me
+			return
+		}
+	}
 	*list = append(*list, me)
 }
